@@ -9,6 +9,24 @@ CHECKS = {
                 "exit the reported length is 0 and every data-dependent output write is followed by a constant fill. This decides the "
                 "control/data-flow clauses of C02, not the MAC arithmetic (that a changed bit changes the tag).",
     },
+    "C07": {
+        "engine": "PathAI (E1) + dependence (E6)",
+        "technique": "path-sensitive checklist analysis + data-dependence slice of predicate results on point coordinates",
+        "text": "Static, for all inputs: every success/accepting exit of the Ed25519/Ristretto255 point APIs holds the necessary "
+                "decode/canonical/small-order/main-subgroup checks on the right operands (R7.1); scalar multiplications succeed only after "
+                "the identity test on the encoded result (R7.2); the subgroup/small-order/on-curve predicates' results depend on every "
+                "coordinate they must read (R7.3; reports the genuine defect F1, listed in known_findings.txt); every hash-to-group path "
+                "clears the cofactor before encoding and the raw Elligator map is only reachable from such functions (R7.4). Field/scalar "
+                "arithmetic exactness and RFC vectors are not decided.",
+    },
+    "C09": {
+        "engine": "PathAI (E1) + sibling agreement (E7)",
+        "technique": "typestate/effect analysis on IR paths + role-normalised effect-signature comparison of push/pull",
+        "text": "Static, for all inputs and states: a failing pull performs no write through the state and every state/plaintext write is "
+                "preceded by the passed 16-byte MAC comparison (R9.1); push and pull have identical post-MAC state-update signatures incl. "
+                "the rekey condition on the REKEY bit and on the wrapped counter, the same Poly1305 transcript, and init_push/init_pull "
+                "agree (R9.2); short input refused, *mlen_p = 0 on failure (R9.3). Whole-history delivery/ordering is not decided.",
+    },
 }
 _PENDING = "check not built yet in this round (design in DESIGN.md §4); no claim is made"
 NOT_APPLICABLE = {
